@@ -193,15 +193,22 @@ def c04_malformed(ctx, r):
     ctx.case(json.dumps(["malformed", seeds]), True)
 
 
-def c04_ack_snapshot(ctx, r):
+def c04_ack_snapshot(ctx, r, variant="mixed"):
     """finished implies captured, observed at the acknowledgement itself (fake crawl HQ snapshotting the WARC directory)"""
-    assets = ["/f/big.bin", "/f/flaky.png", "/f/small.png"]
+    assets = ["/f/big.bin", "/f/flaky.png", "/f/small.png", "/f/gone.bin"]
     site = {"/f/": {"ctype": "text/html", "body": {"kind": "html", "assets": assets, "outlinks": []}},
             "/f/big.bin": {"ctype": "application/octet-stream", "body": {"kind": "bin", "size": r.choice([20000000, 45000000]), "seed": 2}},
             "/f/flaky.png": {"ctype": "image/png", "body": {"kind": "png", "size": 100, "seed": 3}, "attempts": [{"status": 503}, {}]},
-            "/f/small.png": {"ctype": "image/png", "body": {"kind": "png", "size": 100, "seed": 4}}}
+            "/f/small.png": {"ctype": "image/png", "body": {"kind": "png", "size": 100, "seed": 4}},
+            # every attempt fails, with a body that takes a while to write: the given-up response is a capture too
+            "/f/gone.bin": {"status": 503, "ctype": "application/octet-stream", "body": {"kind": "bin", "size": 12000000, "seed": 6}}}
     scn = {"useHQ": True, "snapshotAtAck": True, "seeds": ["/f/"], "site": site, "stop": {"when": "drain", "timeoutMs": 60000},
            "cfg": {"workers": 1, "maxConcurrentAssets": r.choice([2, 3]), "maxRetry": 1, "httpTimeout": 20, "hqBatchSize": 1, "discardStatus": []}}
+    if variant == "giveup":
+        # the last thing the seed waits for is a response it gives up on
+        scn["site"] = {"/f/": {"ctype": "text/html", "body": {"kind": "html", "assets": ["/f/gone.bin"], "outlinks": []}},
+                       "/f/gone.bin": {"status": 503, "ctype": "application/octet-stream", "body": {"kind": "bin", "size": 40000000, "seed": 6}}}
+        scn["cfg"]["maxRetry"] = 0
     rep, err = run_one(scn, timeout=150)
     rp = {"domain": "e2e", "scenario": scn}
     acks = rep.get("acks") or []
@@ -212,7 +219,7 @@ def c04_ack_snapshot(ctx, r):
         if q["mode"] == "ok" and rep["base"] + q["key"] not in on:
             ctx.violation("the seed was reported finished while the capture of %s (%d bytes) was not yet in the WARC files on disk" % (q["key"], q["len"]), rp); return
     ctx.count("c04-e2e:ack-snapshot")
-    ctx.case(json.dumps(["ack-snapshot", scn["cfg"]]), True)
+    ctx.case(json.dumps(["ack-snapshot", variant, scn["cfg"]]), True)
 
 
 def c04_scenarios(ctx, n=None):
@@ -221,6 +228,7 @@ def c04_scenarios(ctx, n=None):
     for k in range(6 if ctx.thorough() else 1):
         c04_malformed(ctx, _random.Random(r.randrange(1 << 30)))
         c04_ack_snapshot(ctx, _random.Random(r.randrange(1 << 30)))
+        c04_ack_snapshot(ctx, _random.Random(r.randrange(1 << 30)), variant="giveup")
     n = n if n is not None else (60 if ctx.thorough() else 4)
     jobs = [("kill" if k % 2 == 0 else "stop", r.randrange(1 << 30)) for k in range(n)]
     import random
